@@ -371,6 +371,173 @@ c06b_run(const c06b_case *c, c06b_out *out) {
 	tp_res_get(&out->res);
 }
 
+/* ============================ (k) removal by a sibling callback ============================ */
+static tp_p gk_tp;
+static tpt_p gk_owner;
+static const c06k_case *gk_case;
+static c06k_out *gk_out;
+static int gk_sp[C06K_MAX_CH][2];
+static tp_udata_t gk_ud[C06K_MAX_CH];
+static atomic_uint gk_fired[C06K_MAX_CH], gk_removed[C06K_MAX_CH], gk_done;
+
+static void
+k_log(uint8_t type, size_t ch, uint16_t event, int rc) { /* owner thread only */
+	c06k_rec *r;
+	if (gk_out->nlog >= C06K_LOG) {
+		gk_out->log_overflow = 1;
+		return;
+	}
+	r = &gk_out->log[gk_out->nlog ++];
+	r->type = type;
+	r->ch = (uint8_t)ch;
+	r->event = (uint8_t)event;
+	r->rc = rc;
+}
+static uint16_t
+k_event(size_t ch) {
+	return ((1 == gk_case->kind[ch]) ? TP_EV_READ : ((2 == gk_case->kind[ch]) ? TP_EV_WRITE : TP_EV_TIMER));
+}
+static void
+k_cb(tp_event_p ev, tp_udata_p ud) {
+	size_t ch = ud->size, t;
+	char b[8];
+
+	if (ch >= C06K_MAX_CH)
+		return;
+	if (tpt_get_current() != gk_owner)
+		gk_out->wrong_thread = 1;
+	k_log(1, ch, ev->event, 0);
+	if (1 == gk_case->kind[ch])
+		(void)!read(gk_sp[ch][0], b, 1);
+	if (0 == atomic_fetch_add(&gk_fired[ch], 1)) {
+		for (t = 0; t < gk_case->nch; t ++) {
+			int rc;
+			if (t == ch || 0 == (gk_case->kills[ch] & (1u << t)))
+				continue;
+			rc = gk_case->kill_op[ch] ? tpt_ev_enable_args1(0, k_event(t), &gk_ud[t]) : tpt_ev_del_args1(k_event(t), &gk_ud[t]);
+			k_log(2, t, k_event(t), rc);
+			if (0 == rc)
+				atomic_store(&gk_removed[t], 1);
+		}
+	}
+	if (2 == gk_case->kind[ch] && 0 == (gk_case->flags[ch] & (TP_F_ONESHOT | TP_F_DISPATCH))) { /* always-ready level event: one report is enough */
+		int rc = tpt_ev_del_args1(TP_EV_WRITE, &gk_ud[ch]);
+		k_log(2, ch, TP_EV_WRITE, rc);
+		if (0 == rc)
+			atomic_store(&gk_removed[ch], 1);
+	}
+}
+static void
+k_busy_cb(tpt_p tpt, void *udata) {
+	size_t ch;
+
+	(void)tpt; (void)udata;
+	for (ch = 0; ch < gk_case->nch; ch ++) {
+		uint16_t e = k_event(ch);
+		int rc = tpt_ev_add_args(gk_owner, e, gk_case->flags[ch], (TP_EV_TIMER == e) ? TP_FF_T_MSEC : 0,
+		    (TP_EV_TIMER == e) ? gk_case->period_ms[ch] : 0, &gk_ud[ch]);
+		k_log(3, ch, e, rc);
+		if (0 != rc)
+			atomic_store(&gk_removed[ch], 1);
+		if (1 == gk_case->kind[ch])
+			(void)!write(gk_sp[ch][1], "x", 1);
+	}
+	usleep((useconds_t)gk_case->busy_ms * 1000); /* everything becomes ready while this thread is busy */
+	atomic_fetch_add(&gk_done, 1);
+}
+static void
+k_cleanup_cb(tpt_p tpt, void *udata) {
+	size_t ch;
+	(void)tpt; (void)udata;
+	for (ch = 0; ch < gk_case->nch; ch ++) {
+		if (0 != gk_ud[ch].tpdata)
+			tpt_ev_del_args1(k_event(ch), &gk_ud[ch]);
+	}
+	atomic_fetch_add(&gk_done, 1);
+}
+static void k_fence_cb(tpt_p tpt, void *udata) { (void)tpt; (void)udata; atomic_fetch_add(&gk_done, 1); }
+static int
+k_call(tpt_msg_cb cb) {
+	uint32_t want = atomic_load(&gk_done) + 1;
+	if (0 != tpt_msg_send(gk_owner, NULL, 0, cb, NULL))
+		return (1);
+	return (tp_wait_until(&gk_done, want, CEIL_MS));
+}
+
+void
+c06k_run(const c06k_case *c, c06k_out *out) {
+	tp_settings_t s;
+	size_t ch;
+	int i;
+
+	memset(out, 0, sizeof(*out));
+	gk_case = c;
+	gk_out = out;
+	tp_harness_reset(&c->plans);
+	g_close_unknown_passthrough = 0;
+	{
+		tp_res_stats rs0;
+		tp_res_get(&rs0);
+		out->pre_live_fds = rs0.live_fds;
+	}
+	atomic_store(&gk_done, 0);
+	tp_settings_def(&s);
+	s.flags = 0;
+	s.threads_max = 1;
+	out->setup_rc = tp_create(&s, &gk_tp);
+	if (0 != out->setup_rc)
+		return;
+	tp_threads_create(gk_tp, 0);
+	gk_owner = tp_thread_get(gk_tp, 0);
+	for (ch = 0; ch < C06K_MAX_CH; ch ++) {
+		atomic_store(&gk_fired[ch], 0);
+		atomic_store(&gk_removed[ch], 0);
+		gk_sp[ch][0] = gk_sp[ch][1] = -1;
+		memset(&gk_ud[ch], 0, sizeof(tp_udata_t));
+		gk_ud[ch].cb_func = k_cb;
+		gk_ud[ch].size = ch;
+		if (ch >= c->nch)
+			continue;
+		if (3 == c->kind[ch]) {
+			gk_ud[ch].ident = (uintptr_t)&gk_ud[ch];
+		} else {
+			if (0 != socketpair(AF_UNIX, SOCK_STREAM | SOCK_NONBLOCK, 0, gk_sp[ch])) {
+				out->setup_rc = errno;
+				return;
+			}
+			gk_ud[ch].ident = (uintptr_t)gk_sp[ch][0];
+		}
+	}
+	tp_harness_arm();
+	out->hang |= k_call(k_busy_cb);
+	/* every channel either reports at least once or is removed by a sibling */
+	for (i = 0; i < CEIL_MS && !out->hang; i ++) {
+		int missing = 0;
+		for (ch = 0; ch < c->nch; ch ++) {
+			if (0 == atomic_load(&gk_fired[ch]) && 0 == atomic_load(&gk_removed[ch]))
+				missing |= (1 << ch);
+		}
+		out->never_fired = missing;
+		if (0 == missing)
+			break;
+		usleep(1000);
+	}
+	for (i = 0; i < 3; i ++)
+		out->hang |= k_call(k_fence_cb);
+	usleep(8000); /* a few periods of the fastest timers */
+	out->hang |= k_call(k_fence_cb);
+	tp_harness_disarm();
+	out->hang |= k_call(k_cleanup_cb);
+	tp_shutdown(gk_tp);
+	tp_shutdown_wait(gk_tp);
+	out->setup_rc = tp_destroy(gk_tp);
+	for (ch = 0; ch < C06K_MAX_CH; ch ++) {
+		if (gk_sp[ch][0] >= 0) close(gk_sp[ch][0]);
+		if (gk_sp[ch][1] >= 0) close(gk_sp[ch][1]);
+	}
+	tp_res_get(&out->res);
+}
+
 /* ============================ (c) process events ============================ */
 #include <signal.h>
 #include <stdarg.h>
@@ -453,6 +620,14 @@ proc_in_thread_cb(tpt_p tpt, void *udata) {
 	(void)tpt;
 	gc_out->s[idx].rc = proc_op(&gc_case->cmds[idx]);
 	proc_snap(gc_out->s[idx].fired_at_ret);
+	atomic_fetch_add(&gc_done, 1);
+}
+static size_t gc_dirty_ch;
+static void
+proc_dirty_cb(tpt_p tpt, void *udata) {
+	(void)tpt; (void)udata;
+	if (0 == tpt_ev_add_args(gc_owner, TP_EV_READ, 0, 0, 0, &gc_ud[gc_dirty_ch]))
+		(void)tpt_ev_enable_args1(0, TP_EV_READ, &gc_ud[gc_dirty_ch]);
 	atomic_fetch_add(&gc_done, 1);
 }
 static void proc_fence_cb(tpt_p tpt, void *udata) { (void)tpt; (void)udata; atomic_fetch_add(&gc_fence, 1); }
@@ -587,6 +762,23 @@ c06c_run(const c06c_case *c, c06c_out *out) {
 		memset(&gc_ud[ch], 0, sizeof(tp_udata_t));
 		gc_ud[ch].cb_func = proc_cb;
 		gc_ud[ch].size = ch;
+		gc_ud[ch].ident = (uintptr_t)gc_pid[ch];
+	}
+	for (ch = 0; ch < nch; ch ++) { /* records with a past: read event, disabled, descriptor closed, never deleted */
+		int sp[2];
+		uint32_t want;
+		if (!c->dirty[ch] || 0 != socketpair(AF_UNIX, SOCK_STREAM | SOCK_NONBLOCK, 0, sp))
+			continue;
+		gc_ud[ch].cb_func = dummy_cb;
+		gc_ud[ch].ident = (uintptr_t)sp[0];
+		gc_dirty_ch = ch;
+		want = atomic_load(&gc_done) + 1;
+		if (0 == tpt_msg_send(gc_owner, NULL, 0, proc_dirty_cb, NULL))
+			out->hang |= tp_wait_until(&gc_done, want, CEIL_MS);
+		close(sp[0]);
+		close(sp[1]);
+		out->hang |= proc_fences(1);
+		gc_ud[ch].cb_func = proc_cb;
 		gc_ud[ch].ident = (uintptr_t)gc_pid[ch];
 	}
 	tp_harness_arm();
